@@ -165,6 +165,10 @@ impl<SVC: Service> CloudServer<SVC> {
 
     /// Generate a random integer in (0..255) for use in probabalistic decisions.
     fn randint(&self) -> Result<u8> {
+        #[cfg(gothenburgbitfactory_taskchampion_verif)]
+        if let Some(v) = verif::next_randint() {
+            return Ok(v);
+        }
         use rand::SecureRandom;
         let mut randint = [0u8];
         rand::SystemRandom::new()
@@ -1280,3 +1284,7 @@ mod tests {
         );
     }
 }
+
+#[cfg(gothenburgbitfactory_taskchampion_verif)]
+#[path = "verif.rs"]
+pub mod verif;
